@@ -29,7 +29,10 @@ RULE = ('synthetic EnergyPlus databases (tables ReportDataDictionary, ReportData
         'mixed-frequency Time tables, units J and 14 others, rows written in EnergyPlus order (Time rows in '
         'simulation order, ReportData rows per time index in dictionary-index order), values = distinct '
         'integer ids; queries: every output name as string, 1-tuple, name lists, absent names, every run-period '
-        'index; plus the shipped files and the static partition helpers on boundary lengths (n*T, n*T+-1, 0). '
+        'index; request histories (2-4 requests in random order over names / name lists / run-period indices '
+        'on ONE SQLiteResult, synthetic mixed-frequency databases and the shipped mixed files; oracle op '
+        '`history`, correspondence op `qhist`); plus the shipped files and the static partition helpers on '
+        'boundary lengths (n*T, n*T+-1, 0). '
         'A case is non-trivial when the implementation returns a value; distinct = distinct (op, input).')
 TRUSTED_BASE = [
     'modelled, not verified: sqlite3 (WHERE = filter in rowid order, ORDER BY TimeIndex = stable sort, '
@@ -757,10 +760,25 @@ def correspondence(ctx):
         res = SQLiteResult(info['path']).values_by_output_name(q_arg(c['q']))
         return _norm_ws('ok ' + ' '.join(_fval(v) for v in res))
 
+    shared_objs = {}
+
+    def shared(c):
+        path = db_for(c['db'])['path']
+        if path not in shared_objs:
+            shared_objs[path] = SQLiteResult(path)
+        return shared_objs[path]
+
+    def impl_hist(c):
+        # the same requests, all sent to ONE SQLiteResult per database (the model is stateless)
+        obj = shared(c)
+        if 'env' in c:
+            return _show_result(obj.data_collections_by_output_name_run_period(c['q'], c['env']))
+        return _show_result(obj.data_collections_by_output_name(q_arg(c['q'])))
+
     def run_db_op(op, cases, impl):
         """Like compare_batch, but values of shipped files are mapped from rowids back to the stored
         floats on the model side (the model moved distinct ids; `J` columns are divided)."""
-        lines = [line_of(op)(c) for c in cases]
+        lines = [line_of('qrp' if 'env' in c else 'qall' if op == 'qhist' else op)(c) for c in cases]
         outs = ctx.driver().run(lines)
         for c, line, mo in zip(cases, lines, outs):
             try:
@@ -800,6 +818,12 @@ def correspondence(ctx):
     run_db_op('qall', qall, impl_qall)
     run_db_op('qrp', qrp, impl_qrp)
     run_db_op('vals', qvals, impl_vals)
+    # request histories: the requests of the mixed-frequency databases again, shuffled, on one object each
+    hist = [c for c in qall + qrp if ('file' in c['db'] and c['db']['file'] == 'eplusout_openstudio.sql') or
+            (c['db'].get('family') in ('mixed1', 'mixedN', 'fixed') and len(c['db']['freqs']) > 1)]
+    rng.shuffle(hist)
+    hist = hist[:ctx.n(80, 2500)]
+    run_db_op('qhist', hist, impl_hist)
 
 
 # ---------------------------------------------------------------------------------------------
@@ -969,8 +993,48 @@ def _facts(src, groups, order, names):
             'env_ends_differ_by_frequency': differ}
 
 
-def check_case(op, inp):
+_SHARED = {}        # path -> SQLiteResult used by every request of the history under evaluation
+
+
+def _sql(path):
+    """The object a request is sent to: a fresh SQLiteResult, or the shared one of a request history."""
     from ladybug.sql import SQLiteResult
+    if path in _SHARED:
+        return _SHARED[path]
+    return SQLiteResult(path)
+
+
+def _check_history(inp):
+    """A sequence of requests on ONE SQLiteResult: every answer must equal the database rows exactly as
+    for a fresh object (the single-request oracle is evaluated on the shared object, step by step)."""
+    from ladybug.sql import SQLiteResult
+    src = inp['db']
+    path = db_for(src)['path']
+    _SHARED.clear()
+    _SHARED[path] = SQLiteResult(path)
+    try:
+        for i, st in enumerate(inp['steps']):
+            sub = dict(st['inp'], db=src)
+            res = check_case(st['op'], sub)
+            if res:
+                shared = _SHARED.pop(path)
+                fresh = check_case(st['op'], sub)          # same request on a fresh object
+                _SHARED[path] = shared
+                sig = dict(res.get('sig') or {})
+                sig.update({'step': i, 'inner_op': st['op'], 'fresh_object_ok': fresh is None})
+                return {'required': 'step %d (%s %s): %s' % (i, st['op'], json.dumps(st['inp'])[:120],
+                                                            res.get('required')),
+                        'observed': '%s  [same request on a fresh object: %s]'
+                                    % (res.get('observed'), 'ok' if fresh is None else 'fails too'),
+                        'sig': sig}
+    finally:
+        _SHARED.clear()
+    return None
+
+
+def check_case(op, inp):
+    if op == 'history':
+        return _check_history(inp)
     src = inp['db']
     info = db_for(src)
     path = info['path']
@@ -991,14 +1055,14 @@ def check_case(op, inp):
     if op == 'absent':
         for meth in ('data_collections_by_output_name', 'values_by_output_name'):
             try:
-                r = getattr(SQLiteResult(path), meth)(arg)
+                r = getattr(_sql(path), meth)(arg)
             except Exception as e:
                 return fail('exception', '[]', '%s raises %s: %s' % (meth, type(e).__name__, e), exc=type(e).__name__, exc_obj=e)
             if list(r) != []:
                 return fail('absent', '[]', '%s returned %d items' % (meth, len(r)))
         if isinstance(q, str):
             try:
-                r = SQLiteResult(path).data_collections_by_output_name_run_period(q, inp.get('env', 1))
+                r = _sql(path).data_collections_by_output_name_run_period(q, inp.get('env', 1))
             except Exception as e:
                 return fail('exception', '[]', 'run_period raises %s: %s' % (type(e).__name__, e),
                             exc=type(e).__name__, exc_obj=e)
@@ -1010,7 +1074,7 @@ def check_case(op, inp):
         if not order:
             return check_case('absent', inp)
         try:
-            res = SQLiteResult(path).data_collections_by_output_name(arg)
+            res = _sql(path).data_collections_by_output_name(arg)
         except Exception as e:
             freq = order[0]
             return fail('exception', 'collections of %s' % names, 'raises %s: %s' % (type(e).__name__, e),
@@ -1046,7 +1110,7 @@ def check_case(op, inp):
         if not order:
             return check_case('absent', inp)
         try:
-            res = SQLiteResult(path).data_collections_by_output_name_run_period(q, env)
+            res = _sql(path).data_collections_by_output_name_run_period(q, env)
         except Exception as e:
             return fail('exception', 'collections of %s for run period %s' % (q, env),
                         'raises %s: %s' % (type(e).__name__, e), exc=type(e).__name__, exc_obj=e, freq=order[0],
@@ -1071,7 +1135,7 @@ def check_case(op, inp):
             if r is None:
                 # one run period == the slice of all (when asking for all succeeds)
                 try:
-                    allres = SQLiteResult(path).data_collections_by_output_name(q)
+                    allres = _sql(path).data_collections_by_output_name(q)
                 except Exception:
                     return None     # reported by op `collections`
                 if isinstance(allres, list) and all(hasattr(x, 'header') for x in allres):
@@ -1102,7 +1166,7 @@ def check_case(op, inp):
 
     if op == 'values':
         try:
-            res = SQLiteResult(path).values_by_output_name(arg)
+            res = _sql(path).values_by_output_name(arg)
         except Exception as e:
             return fail('exception', 'values', 'raises %s: %s' % (type(e).__name__, e), exc=type(e).__name__, exc_obj=e)
         for f in order:
@@ -1160,6 +1224,42 @@ def regression_cases():
         ('collections', {'db': S['annual-multi'], 'q': lights}),
         ('run_period', {'db': S['annual-multi'], 'q': lights, 'env': 2}),
     ]
+
+
+def _history_steps(rng, names, envs, k):
+    """k requests over different output names / name lists / run-period indices, in random order."""
+    steps = []
+    for _ in range(k):
+        r = rng.random()
+        n = rng.choice(names)
+        if r < 0.55:
+            steps.append({'op': 'collections', 'inp': {'q': n}})
+        elif r < 0.7 and len(names) > 1:
+            steps.append({'op': 'collections', 'inp': {'q': rng.sample(names, 2)}})
+        elif r < 0.9:
+            steps.append({'op': 'run_period', 'inp': {'q': n, 'env': rng.choice(envs)}})
+        else:
+            steps.append({'op': 'values', 'inp': {'q': n}})
+    return steps
+
+
+def history_fixed():
+    """Fixed request histories: sub-hourly then hourly output (and the reverse) on one object."""
+    mixed = [s for s in fixed_specs() if s['freqs'] == ['ts', 'hourly', 'daily', 'monthly']][0]
+    out = []
+    for order in (['Electricity:Facility', 'Zone Lights Electric Energy', 'Site Outdoor Air Drybulb Temperature'],
+                  ['Zone Lights Electric Energy', 'Electricity:Facility']):
+        out.append({'db': mixed, 'steps': [{'op': 'collections', 'inp': {'q': n}} for n in order]})
+    ship = {'file': 'eplusout_openstudio.sql'}
+    for order in (['DistrictCooling:Facility', 'Zone Lights Electric Energy',
+                   'Site Outdoor Air Wetbulb Temperature', 'Zone Air Relative Humidity'],
+                  ['Zone Lights Electric Energy', 'DistrictCooling:Facility']):
+        out.append({'db': ship, 'steps': [{'op': 'collections', 'inp': {'q': n}} for n in order]})
+    out.append({'db': ship, 'steps': [
+        {'op': 'run_period', 'inp': {'q': 'Zone Lights Electric Energy', 'env': 8}},
+        {'op': 'collections', 'inp': {'q': 'Electricity:Facility'}},
+        {'op': 'collections', 'inp': {'q': 'Site Outdoor Air Drybulb Temperature'}}]})
+    return out
 
 
 def _regions(spec, q, op):
@@ -1240,6 +1340,43 @@ def _oracle_cases(ctx):
             if len(v) > 1:
                 yield 'collections', {'db': src, 'q': v[:3]}
                 break
+    # request histories on one object
+    for h in history_fixed():
+        try:
+            db_for(h['db'])
+        except Exception:
+            continue
+        yield 'history', h
+    for _ in range(ctx.n(10, 250) * (3 if ctx.searching else 1)):
+        fam = rng.choice(['mixed1', 'mixed1', 'mixed1', 'single', 'single', 'mixedN'])
+        s = gen_spec(rng, family=fam)
+        if fam == 'mixedN' and seen.get('mixed-multi', 0) >= 2:
+            continue
+        names = []
+        for o in s['outputs']:
+            if o[0] not in names:
+                names.append(o[0])
+        envs = [e[0] for e in s['envs']]
+        h = {'db': s, 'steps': _history_steps(rng, names, envs, rng.randint(2, 4))}
+        if fam == 'mixedN':
+            seen['mixed-multi'] = seen.get('mixed-multi', 0) + 1
+        ctx.count('history:family=%s' % fam)
+        ctx.count('history:steps=%d' % len(h['steps']))
+        yield 'history', h
+    for f in ('eplusout_openstudio.sql', 'eplusout_dday_runper.sql', 'eplusout_hourly.sql'):
+        src = {'file': f}
+        try:
+            info = db_for(src)
+        except Exception:
+            continue
+        names = []
+        for r in info['dict']:
+            if r[3] not in names:
+                names.append(r[3])
+        envs = sorted(set(t[9] for t in info['time']))
+        for _ in range(ctx.n(2, 12)):
+            ctx.count('history:shipped')
+            yield 'history', {'db': src, 'steps': _history_steps(rng, names, envs, rng.randint(2, 4))}
 
 
 def oracle(ctx):
